@@ -145,6 +145,24 @@ def _while_shape(fn, ctx, L):
     if n.get("c") is None or n.get("body") is None:
         return out
     fs = ctx.cmp_fact(n["c"], True)
+    if len(fs) == 1 and fs[0][0] in ("<", "<=") and fs[0][1][0] == "var":
+        # counter form:  T v = s; while (v < B) { ...; ++v; }   (declared before the loop, advanced once, as the last statement of the
+        # body, on every path; nothing else changes it)  ->  the same description as  for (v = s; v < B; ++v)
+        var = fs[0][1]
+        dv = ctx.decls.get(var[1], {})
+        if dv.get("init") is not None:
+            muts = [m for m in ctx.mut.get(var[1], []) if any(m == x for x, _ in fn.walk(n["body"]))]
+            outside = [m for m in ctx.mut.get(var[1], []) if m not in muts and m != dv.get("declnode")]
+            if len(muts) == 1 and not outside:
+                mn = fn.nodes[muts[0]]
+                isinc = (mn["k"] == "un" and mn["op"] == "++") or (mn["k"] == "bin" and mn["op"] == "+=" and ctx.key(mn["r"]) == ("lit", 1))
+                body = fn.nodes[n["body"]]
+                stm = [c for c in body.get("body", []) if c is not None and fn.nodes[c]["k"] != "null"] if body["k"] == "block" else [n["body"]]
+                # the declaration must reach the loop unchanged: it is in the same statement list, before the loop
+                if isinc and stm and stm[-1] == muts[0] and not out["continues"]:
+                    out.update(kind="index", var=("var", var[1], var[2]), start=_unconv(ctx.key(dv["init"])), rel=fs[0][0], bound=_unconv(fs[0][2]), while_form=True)
+                    return out
+        return out
     if len(fs) != 1 or fs[0][0] != "!=":
         return out
     a, b = fs[0][1], fs[0][2]
